@@ -68,6 +68,25 @@ def findings_c01():
                  block(pr(iff({"e": "uis", "u": var("g1"), "tag": 1, "ut": 0}, {"e": "uget", "u": var("g1"), "tag": 1, "ut": 0},
                               lit(SI, -17), SI))),
                  block(pr(lit(SI, 7))), UNIT))], uns=[[SI, BI]]))
+    # F12: the handler of a try that stands inside a conditional reads the value its exception carries (pv$E): the lazy
+    # import of `pv` from E is initialised at the import place in front of the conditional, before E exists
+    thrower = {"name": "thr", "oname": "thr", "ps": ["x"], "pts": [SI], "rt": SI, "pure": False,
+               "body": {"e": "seq", "t": SI, "es": [
+                   iff(prim("si.gt", var("x"), lit(SI, 3)), {"e": "throw", "exn": "ExP0", "args": [prim("si.add", var("x"), lit(SI, 1))]},
+                       {"e": "unit"}, UNIT),
+                   var("x")]}}
+    catcher = {"name": "cat", "oname": "cat", "ps": ["y"], "pts": [SI], "rt": SI, "pure": False,
+               "body": {"e": "let", "x": "v", "t": SI, "v": lit(SI, 0), "body": {"e": "seq", "t": SI, "es": [
+                   iff(prim("si.gt", var("y"), lit(SI, 0)),
+                       block({"e": "asg", "x": "v", "v": {"e": "try", "t": SI, "body": {"e": "call", "fi": 1, "args": [var("y")]},
+                                                        "hs": [{"exn": "ExP0", "ps": ["q"], "body": prim("si.add", var("q"), lit(SI, 3))}],
+                                                        "fin": {"e": "none"}}}),
+                       {"e": "unit"}, UNIT),
+                   var("v")]}}}
+    out.append(prog("F12_payload_read_in_conditional_try", [
+        stmt(pr({"e": "call", "fi": 2, "args": [lit(SI, 1)]})),
+        stmt(pr({"e": "call", "fi": 2, "args": [lit(SI, 5)]}))],
+        funs=[thrower, catcher], exns=["ExP0"], exnp=[{"exn": "ExP0", "t": SI}]))
     return out
 
 
